@@ -30,7 +30,7 @@ ASSUMPTIONS = [
     "the decoder may reject earlier than strictly necessary (a read chunk larger than max_form_memory_size is refused): only acceptance beyond a limit, bounds, purity and the exception class are checked, plus acceptance when every limit is generously large or exactly met with small chunks",
     "E3 compares with the unlimited parse under the identical buffer_size and short-read pattern (chunking independence is C01's subject)",
 ]
-TIERS = {"quick": dict(nshards=16, parser=500, request=400), "thorough": dict(nshards=64, parser=12000, request=6000)}
+TIERS = {"quick": dict(nshards=16, parser=500, request=400), "thorough": dict(nshards=64, parser=4000, request=2500)}
 BND = b"B0UND"
 
 
